@@ -18,9 +18,11 @@
   * "stationary_distributions … each row is a probability vector, invariant, supported on its
       class": `class_row_stationary`, `stationaryDists_row` (closedness of the class enters as a
       certificate `closedB` that the driver evaluates on every reported class).
-  * "to high relative accuracy in every component": only the structural reason is proved
-      (`gth_subtraction_free`: on non-negative off-diagonals every stored quantity is ≥ 0; the model is
-      typed without `Sub`/`Neg`, so no subtraction exists in it); the rounding analysis is not.
+  * "to high relative accuracy in every component, however small": round 3 —
+      `gthSolve_accuracy` (standard model of rounded arithmetic: relative error of every component
+      ≤ (1+u)^{E(n)} − 1, independent of the entries), `gthSolve_accuracy_double` (u ≤ 2⁻⁵³, n ≤ 8:
+      inside the harness's 1e-12·n³), `gth_rounded_same_break`; structural reason:
+      `gth_subtraction_free` (no `Sub`/`Neg` in the model's typing).
   * the driver's two-phase program = the recursion the proofs are about: `gthRaw_eq_gthRec`.
   * "exactly one row per recurrent class": `reachMat_correct`, `recClasses_exact`,
       `stationaryDists_one_row_per_class`, `closedB_holds` (round 2).
@@ -33,6 +35,8 @@ import QEProofs.Lemmas.C02Scatter
 import QEProofs.Lemmas.C02Class
 import QEProofs.Lemmas.C02Support
 import QEProofs.Lemmas.C02Unique
+import QEProofs.Lemmas.C02Round
+import QEProofs.Lemmas.C02Acc
 namespace QE.C02
 open Finset
 
@@ -279,6 +283,75 @@ theorem edge_iff (n : ℕ) (P : M K) (a b : ℕ) :
     E n (adjB P) a b ↔ (a < n ∧ b < n ∧ 0 < P.get a b) := by
   unfold E; rw [adjB_iff]
 
+/-! ## T3 (round 3) — component-wise relative accuracy in the standard model of rounded arithmetic
+
+  `RoundedOps K` (Lemmas/C02Round): a unit roundoff `u ≥ 0` and operations `fadd fmul fdiv` that, on
+  non-negative operands (positive divisor), return the exact result times a factor in
+  `[1/(1+u), 1+u]` (`Apx u 1`). IEEE-754 round-to-nearest satisfies this with `u = 2⁻⁵³` while no
+  underflow / overflow occurs (both standard forms `z(1+ε)` and `z/(1+ε')` hold). `Fl R` is the
+  wrapper type whose `+ * /` are these operations; the model's own generic `gthSolve` is run at
+  `Fl R` (`liftM R n A` reads the input exactly) and compared with the same definition at `K`.
+  `Apx u e xt x` : `x/(1+u)^e ≤ xt ≤ x(1+u)^e`.  `errBound n` (= `E(n)`, QEModel/C02.lean) :
+  `E(n) = 2·xerr (n−1) 0 + n + 1`, `xerr (f+1) e = xerr f (3e+f+4) + 2e + 2f + 5`, `xerr 0 _ = 0`;
+  `E(1..8) = 2, 11, 44, 157, 542, 1847, 6232, 20825`.
+  Outside these theorems: underflow/overflow/subnormals; the NumPy twin's pairwise `np.sum` and BLAS
+  `dot` (other, shallower summation orders — the sequential analysis covers the Numba kernel). -/
+
+/-- the calculus: `e` factors are monotone in `e`, add (same `e`), multiply and divide
+    (`e₁+e₂`), and compose with one rounding (`+1`) — for non-negative data -/
+theorem apx_calculus (u : K) (hu : 0 ≤ u) :
+    (∀ e e' xt x, e ≤ e' → 0 ≤ x → Apx u e xt x → Apx u e' xt x)
+    ∧ (∀ e a' a b' b, Apx u e a' a → Apx u e b' b → Apx u e (a' + b') (a + b))
+    ∧ (∀ e1 e2 a' a b' b, 0 ≤ a → 0 ≤ b → Apx u e1 a' a → Apx u e2 b' b → Apx u (e1 + e2) (a' * b') (a * b))
+    ∧ (∀ e1 e2 a' a b' b, 0 ≤ a → 0 < b → Apx u e1 a' a → Apx u e2 b' b → Apx u (e1 + e2) (a' / b') (a / b))
+    ∧ (∀ e xt x, 0 ≤ x → Apx u e xt x → (xt ≤ 0 ↔ x ≤ 0)) :=
+  ⟨fun _ _ _ _ h hx ha => apx_mono hu h hx ha,
+   fun _ _ _ _ _ ha hb => apx_add ha hb,
+   fun _ _ _ _ _ _ ha0 hb0 ha hb => apx_mul hu ha0 hb0 ha hb,
+   fun _ _ _ _ _ _ ha0 hb0 ha hb => apx_div hu ha0 hb0 ha hb,
+   fun _ _ _ hx ha => apx_le_zero_iff hu ha hx⟩
+
+/-- **The `scale ≤ 0` test is exact**: the rounded run has the same effective size (breaks at the
+    same pivot, or not at all) as the exact run, for every Metzler matrix. -/
+theorem gth_rounded_same_break (R : RoundedOps K) (n : ℕ) (hn : 1 ≤ n) (A : M K) (hA : OffNonneg n A) :
+    (reduce n (n - 1) 0 (liftM R n A)).2 = (reduce n (n - 1) 0 A).2 :=
+  rounded_same_size R n hn A hA
+
+/-- **Accuracy, factor form.** Every component of the rounded result carries at most `E(n)`
+    rounding factors relative to the exact result — all `n ≥ 1`, all matrices with non-negative
+    off-diagonals (reducible / breaking runs included), any size of the entries. -/
+theorem gthSolve_accuracy_factors (R : RoundedOps K) (n : ℕ) (hn : 1 ≤ n) (A : M K) (hA : OffNonneg n A) :
+    ∀ i, Apx R.u (errBound n) ((gthSolve n (liftM R n A)).getD i 0).val ((gthSolve n A).getD i 0) :=
+  gthSolve_apx R n hn A hA
+
+/-- **Headline: component-wise relative error ≤ (1+u)^{E(n)} − 1**, independent of the entries
+    (nearly decomposable chains included): `|x̃_i − x_i| ≤ ((1+u)^{E(n)} − 1)·x_i` for every `i`. -/
+theorem gthSolve_accuracy (R : RoundedOps K) (n : ℕ) (hn : 1 ≤ n) (A : M K) (hA : OffNonneg n A) (i : ℕ) :
+    |((gthSolve n (liftM R n A)).getD i 0).val - (gthSolve n A).getD i 0|
+      ≤ ((1 + R.u) ^ errBound n - 1) * (gthSolve n A).getD i 0 :=
+  gthSolve_rel_err R n hn A hA i
+
+/-- first-order form: if `E(n)·u < 1` the relative error is at most `E(n)u / (1 − E(n)u)` -/
+theorem gthSolve_accuracy_linear (R : RoundedOps K) (n : ℕ) (hn : 1 ≤ n) (A : M K) (hA : OffNonneg n A)
+    (hEu : (errBound n : K) * R.u < 1) (i : ℕ) :
+    |((gthSolve n (liftM R n A)).getD i 0).val - (gthSolve n A).getD i 0|
+      ≤ ((errBound n : K) * R.u / (1 - (errBound n : K) * R.u)) * (gthSolve n A).getD i 0 :=
+  gthSolve_rel_err_linear R n hn A hA hEu i
+
+/-- the values of `E(n)` for `n = 0..8` -/
+theorem errBound_values :
+    (List.range 9).map errBound = [1, 2, 11, 44, 157, 542, 1847, 6232, 20825] :=
+  errBound_table
+
+/-- **Double precision, the property's domain `n ≤ 8`: the harness's envelope `1e-12·n³` is implied.**
+    For any rounded arithmetic with `u ≤ 2⁻⁵³`, every component's relative error is `≤ 1e-12·n³`
+    (in fact `≤ 2.4e-12` at `n = 8`, against the envelope's `5.1e-10`). -/
+theorem gthSolve_accuracy_double (R : RoundedOps K) (hR : R.u ≤ 1 / 2 ^ 53) (n : ℕ) (hn : 1 ≤ n)
+    (hn8 : n ≤ 8) (A : M K) (hA : OffNonneg n A) (i : ℕ) :
+    |((gthSolve n (liftM R n A)).getD i 0).val - (gthSolve n A).getD i 0|
+      ≤ ((n : K) ^ 3 / 10 ^ 12) * (gthSolve n A).getD i 0 :=
+  gthSolve_rel_err_double R hR n hn hn8 A hA i
+
 end field
 
 section scatter
@@ -334,6 +407,17 @@ example : (stationaryDists 4 exR).map (·.2) = [[1, 0, 0, 0], [0, 0, 1/3, 2/3]] 
 example : (stationaryDists 4 exR).all (fun Cr => closedB 4 exR Cr.1) = true := by decide +kernel
 example : ∀ i < 4, ∀ j < 4, (0 : ℚ) ≤ exR.get i j := by decide +kernel
 example : ∀ i, i < 4 → ∑ j ∈ range 4, exR.get i j = 1 := by decide +kernel
+/-- the exact instance reproduces the exact model … -/
+example : (gthSolve 3 (liftM (RoundedOps.exact ℚ) 3 exP)).map (·.val) = [8/19, 5/19, 6/19] := by
+  decide +kernel
+/-- … and a genuinely lossy instance (`u = 1/8`: sums inflated, products deflated) does not, yet
+    stays inside the theorem's factors (`E(3) = 44`), and breaks where the exact run breaks -/
+example : (gthSolve 3 (liftM (RoundedOps.biased (1/8 : ℚ) (by norm_num)) 3 exP)).map (·.val)
+    ≠ [8/19, 5/19, 6/19] := by decide +kernel
+example : (reduce 4 3 0 (liftM (RoundedOps.biased (1/8 : ℚ) (by norm_num)) 4 exR)).2 = 1 := by
+  decide +kernel
+example : errBound 3 = 44 := by decide
+
 /-- hypotheses of `scatter_invariant` on the class `{2,3}` of `exR` -/
 example : ([2, 3] : List ℕ).Nodup ∧ (∀ c ∈ ([2, 3] : List ℕ), c < 4)
     ∧ (∀ c ∈ ([2, 3] : List ℕ), ∀ j, j < 4 → j ∉ ([2, 3] : List ℕ) → exR.get c j = 0) := by
